@@ -8,6 +8,18 @@ P = {
  "C01": ("differential runtime monitor: real generic solver code instantiated at exact rationals (exact oracle A*x=b) + f64/Complex backward-error oracle with exact conditioning certificates, over enumerated row-exchange patterns",
          "Runs Matrix::solve_basic/solve_lu on every permutation-forced pivot pattern (all P for n<=6 quick, n<=8 thorough), all sign/zero patterns n<=3 and random structured classes; exact equality over Rat/CRat, backward error <=1024*n*u over f64/Cmplx, agreement of the two solvers. Exploration: held on the executions listed in the evidence.",
          "Trusted: harness exact rational arithmetic and Gauss-Jordan model, double-double residuals; float demands only under kappa<=1e8 certificates.", "5/C01"),
+ "C02": ("differential runtime monitor: determinant/inverse of the real generic code at exact rationals vs harness exact elimination (all n! permutation matrices, rank-deficient families), f64/Complex error bounds scaled by an exact condition number, snapshot comparison of the matrix",
+         "Matrix::determinant must equal the exact determinant for every square matrix incl. singular ones; inverse must satisfy A*X=X*A=I for nonsingular ones; matrix bitwise unchanged afterwards. Exploration over enumerated permutation/parity classes and random structured classes; held on the executions listed.",
+         "Trusted: harness Gauss-Jordan over Rat/CRat; float bounds n*kappa*tau(n) with kappa from the exact inverse (kappa<=1e8).", "5/C02"),
+ "C03": ("lock-step differential execution against a Vec<Vec<Rat>> model: exhaustive shape sweep of every operator/editing method plus random operation histories, with a structural invariant hook (storage length == rows*cols)",
+         "Every dense operator/method is executed on all shapes 0..8 (products on all (r,k,c) in [0,8]^3) with exact rational entries and compared entry-by-entry with textbook loops; random editing histories compared after every step; norms on exactly representable data.",
+         "Trusted: the naive model; hook Matrix::verif_storage_len. Only conformable calls (mismatches are C20).", "5/C03"),
+ "C04": ("differential + metamorphic runtime monitor: banded code at Rat/CRat/f64/Complex vs dense twin over all 385 (n,m1,m2) triples x 6 value classes, each built twice with different padding fills",
+         "Element access, products, det, solve and 18 arithmetic forms compared with the dense model (exact over Rat/CRat, backward error <=4096*n*u and kappa-scaled det error over floats); results must be identical across padding values.",
+         "Trusted: dense model and exact inverse for certificates (kappa<=1e8); solve of singular matrices unconstrained.", "5/C04"),
+ "C05": ("differential runtime monitor: tridiagonal code at Rat/CRat/f64/Complex vs dense twin and an exact Thomas-elimination model deciding 'solution or zero-pivot refusal' per case",
+         "All four constructors, sizes 1..12 (1 and 2 weighted), zero pivots forced at every elimination step: access, convert, transpose, det, products, arithmetic equal the dense twin; solve returns the exact solution or panics naming a zero pivot exactly when the model meets one; f64 exact class mirrors the Rat model, dominant class backward stable.",
+         "Trusted: harness exact Thomas model; message pattern /zero|pivot|singular/i.", "5/C05"),
 }
 ORDER = ["C%02d" % i for i in range(1, 21)]
 NOT_BUILT_REASON = "monitor for this property is designed (DESIGN.md section 5) but not yet built in this revision; not claimed"
